@@ -278,3 +278,28 @@ PROPS["C19"] = dict(
         assumptions=["HDF5 dataset/attribute I/O is correct for planting ticks and intervals", "conflicting breach pairs (same attribute, or one removes the other's target) are excluded"],
     ),
 )
+
+PROPS["C11"] = dict(
+    level="fault_enumeration",
+    budget_s=dict(quick=150, thorough=1500),
+    parts=[dict(name="crash_and_handles", bin="C11", flavour="plain")],
+    extra_bins=["obsdump"],
+    manifest=dict(
+        engine="E3", design_ref="5 / C11",
+        technique="exhaustive enumeration of crash points (SIGKILL of a real writer process right after flush()/close() returned) over a BFS corpus of histories, and of live-handle populations at close(); recovery observed from other processes",
+        text="(a) For every state of the BFS corpus (empty seed, level-1 alphabet, depth 3 quick / 4 thorough; rich seed R1 and its successors in thorough) and every enabled operation, "
+             "a child process replays the history in one session, flushes (after every step, or once at the end) or closes, records its observation and SIGKILLs itself; the "
+             "parent reopens ReadOnly and ReadWrite and must see exactly that observation. (b) Every population of at most 2 of 16 handle kinds (thorough: ~10k subsets), the full "
+             "set and a 40-fold population is kept alive across close(): another process must be able to open the file ReadWrite (HDF5 write lock), the same process must reopen "
+             "ReadOnly and with Overwrite, ~100 methods of the stale handles must all throw, and the file's bytes must not change.",
+        note="Process death only (the page cache survives): no torn writes; modifications after the last flush promise nothing and are not generated. Methods that answer from "
+             "memory (DataView::dataExtent, Dimension::index) are not required to throw."),
+    evidence=dict(
+        keys=dict(evaluations=("sum", [("count", "reopens_after_kill"), ("count", "release_checks"), ("count", "stale_calls")]), distinct_nontrivial=("distinct", "histories"),
+                  crash_points=("count", "crash_points"), handle_populations=("distinct", "populations")),
+        rule="crash point = (corpus state, next operation, variant {flush at end, flush after every step, close}) with SIGKILL immediately after the flush/close returned; quick runs "
+             "one variant per (state, operation), rotating. distinct_nontrivial = distinct histories that reached a crash point. Handle populations: subsets of 16 kinds.",
+        bound=dict(quick="corpus depth 3 (level-1 alphabet) x every enabled op x 1 variant; populations of size <=2, full, 40-fold", thorough="corpus depth 4 x 3 variants; R1 successors; ~10k populations"),
+        assumptions=["SIGKILL models process death; the OS page cache survives", "HDF5's flock-based exclusion is what makes 'another process can open ReadWrite' observable"],
+    ),
+)
